@@ -83,6 +83,9 @@ func (vc *VC) havocFor(h *Heap, ms *ModSet) {
 		if !ok {
 			continue
 		}
+		if !strings.HasPrefix(s, "(Array Int ") {
+			continue // a scalar component has no fresh locations: unchanged
+		}
 		old := vc.get(h, c)
 		n := vc.havoc(h, c)
 		if strings.HasPrefix(s, "(Array Int ") {
